@@ -4,7 +4,7 @@
 #     suite green with the patch (default and all features); demo fails with the patch
 #  2. apply the patch to /repo, run the property's quick check (and any extra ids in $EXTRA), revert
 #  3. store patch, demo and meta.json under /verif/seeded/<ID><suffix>/
-ID="$1"; SUF="${2:-}"; WT="/tmp/seed-$ID$SUF"; OUT="$WT/OUT"; DEST="/verif/seeded/$ID$SUF"
+ID="$1"; SUF="${2:-}"; WT="/tmp/seed-$ID"; OUT="$WT/OUT"; DEST="/verif/seeded/$ID$SUF"
 [ -f "$OUT/patch.diff" ] || { echo "no patch in $OUT"; exit 2; }
 export CARGO_NET_OFFLINE=true RUST_BACKTRACE=0
 cd "$WT" || exit 2
